@@ -1305,8 +1305,8 @@ func (g *Gen) bigMergeCase() {
 	if g.forceBigVariant > 0 {
 		nth = g.forceBigVariant - 1
 	}
-	if nth < 5 {
-		mode = []int{1026, 1026, 1025, 1026, 1026}[nth]
+	if nth < 6 {
+		mode = []int{1026, 1026, 1025, 1026, 1026, 1026}[nth]
 	}
 	g.curMode = mode
 	g.emit("cfg chunkmode=%d", mode)
@@ -1317,6 +1317,12 @@ func (g *Gen) bigMergeCase() {
 	}
 	if nth == 3 {
 		sizes = []int{600, 430} // exactly 1024 survivors, see below
+	}
+	if nth == 5 {
+		// 6th big merge of a run: ONE input whose frequent terms have more than 1024 hits, and deletions
+		// that leave fewer than 1024 of them (the input is read through a list whose live count and
+		// whose cardinality lie on different sides of 1024)
+		sizes = []int{1100 + g.r.Intn(300)}
 	}
 	if nth == 4 {
 		// 5th big merge of a run: in front of ONE big input (its frequent terms in 1030 documents, 10 of
@@ -1385,7 +1391,7 @@ func (g *Gen) bigMergeCase() {
 	total := 0
 	// 1st and 3rd big merge of a run: deletions take the survivors below 1024; 2nd: few deletions, so that a
 	// term of every document stays above 1024 while its neighbour in the next field has a handful of hits
-	crossing := ((g.chance(0.7) && nth != 1) || nth == 0 || nth == 2) && nth != 3 && nth != 4
+	crossing := ((g.chance(0.7) && nth != 1) || nth == 0 || nth == 2 || nth == 5) && nth != 3 && nth != 4
 	fewDrops := nth == 1
 	for _, s := range segs {
 		nd := g.ndocs[s]
@@ -1468,7 +1474,7 @@ func (g *Gen) genMerge(prop string, n int) error {
 	}
 	for i := 0; i < n; i++ {
 		g.emit("note case %d", i)
-		if prop == "C06" && i%80 == 53 {
+		if prop == "C06" && i%50 == 13 {
 			g.bigMergeCase()
 			continue
 		}
@@ -1768,7 +1774,7 @@ func (g *Gen) genC08(n int) error {
 	}
 	for i := 0; i < n; i++ {
 		g.emit("note case %d", i)
-		if i%211 == 9 {
+		if i%50 == 9 {
 			g.bigMergeCase()
 			g.st("case")
 			continue
